@@ -65,6 +65,8 @@ pub fn run_ucontext(a: &Args) {
         let cpu = placed(cc, off, |c| { let mut cpu = RawContextCPU::default(); c.fill_cpu_context(&mut cpu); cpu });
         let mut res = Line::bare(); res.bytes(&ctx_to_bytes(cpu));
         out.case(case.s(), res.s(), true);
+        // ... and against the tables of the specification alone (a changed source table then shows as a differing register)
+        out.case(&case.s().replacen("ctx_ucontext", "ctx_ucontext_spec", 1), res.s(), true);
     }
     out.finish(&a.out, "random ucontext / fpstate contents (boundary-biased 64-bit values) through the public CrashContext::fill_cpu_context, serialised with the image builder; all 1232 context bytes compared; every case is non-trivial; distinct by register file");
 }
@@ -91,6 +93,7 @@ pub fn run_ptrace(a: &Args) {
         let cpu = placed(info, off, |i| { let mut cpu = RawContextCPU::default(); i.fill_cpu_context(&mut cpu); cpu });
         let mut res = Line::bare(); res.bytes(&ctx_to_bytes(cpu));
         out.case(case.s(), res.s(), true);
+        out.case(&case.s().replacen("ctx_ptrace", "ctx_ptrace_spec", 1), res.s(), true);
     }
     out.finish(&a.out, "random ptrace register files (user_regs_struct, debug registers, user_fpregs_struct) through the public ThreadInfo::fill_cpu_context; all 1232 context bytes compared; distinct by register file");
 }
